@@ -24,6 +24,9 @@ pub const GEOMS: &[(u16, u8, u32, bool)] = &[
     (512, 64, u32::MAX, false),
     (4096, 8, 1 << 30, false),
     (512, 16, 0x7000_0000, false),
+    // just above 4 GiB with the fewest clusters FAT32 allows (64 KiB clusters): small enough a table to be filled
+    // completely, so that "the only free cluster" can be placed anywhere relative to the hint
+    (512, 128, 8_420_000, true),
 ];
 
 pub fn large_vol(geom_idx: usize, l: LargeCfg) -> VolCfg {
@@ -73,6 +76,7 @@ pub fn large_cfgs() -> Vec<LargeCfg> {
 pub fn prop() -> HistProp {
     let mut rc = RunCfg::new(&[Aspect::File, Aspect::Fsck, Aspect::Regions, Aspect::Large, Aspect::Panic, Aspect::Budget, Aspect::Stats]);
     rc.regions = true;
+    rc.placement = true;
     rc.flush_each = true;
     rc.fsck_kinds = vec![Fk::FatRange, Fk::Cycle, Fk::CrossLink, Fk::Lost, Fk::SizeChain, Fk::DotEntries, Fk::AfterEnd, Fk::LfnRun, Fk::Orphan];
     rc.budget_per_op = 3_000_000;
@@ -84,7 +88,7 @@ pub fn prop() -> HistProp {
     HistProp {
         id: "C20",
         level: "exploration",
-        rule: "sparse simulated FAT32 volumes built by imggen and by the library's formatter: 2^32-1 sectors of 512 bytes (2 TiB - 512 B) with 32 KiB and 64 KiB clusters, 1 TiB, 4 GiB+, 4096-byte sectors with 0x0FFFFFF4 clusters and with 2^32-1 sectors (16 TiB); FS-info next-free hint at the last cluster, last-1, last+1 (invalid), last-40 or unknown; trailing table windows pre-filled so that the scan must wrap, with free clusters left at the very end; scripted and random short histories (create, multi-cluster write, read back, seek, extents, truncate, remove, mkdir, remount) under the byte-array model, refdec fsck through a sparse FAT view, the region/ownership check of every device write against independent 64-bit geometry, and the device's high-water marks (nothing read or written past the declared end); non-trivial = a data cluster at a byte offset >= 2^32 or an allocation that wrapped around; distinct by hash(config, ops)",
+        rule: "sparse simulated FAT32 volumes built by imggen and by the library's formatter: 2^32-1 sectors of 512 bytes (2 TiB - 512 B) with 32 KiB and 64 KiB clusters, 1 TiB, 4 GiB+, 4096-byte sectors with 0x0FFFFFF4 clusters and with 2^32-1 sectors (16 TiB); FS-info next-free hint at the last cluster, last-1, last+1 (invalid), last-40 or unknown; trailing table windows pre-filled so that the scan must wrap, with free clusters left at the very end; a 4 GiB volume of 64 KiB clusters whose table is completely taken except one or two clusters placed just below, at, far below or behind the hint; every newly allocated cluster must be the first free one a search from the modelled next-free hint (wrapping from the last cluster to cluster 2) reaches; scripted and random short histories (create, multi-cluster write, read back, seek, extents, truncate, remove, mkdir, remount) under the byte-array model, refdec fsck through a sparse FAT view, the region/ownership check of every device write against independent 64-bit geometry, and the device's high-water marks (nothing read or written past the declared end); non-trivial = a data cluster at a byte offset >= 2^32 or an allocation that wrapped around; distinct by hash(config, ops)",
         run_cfg: rc,
         gen_cfg: gc,
         nontrivial,
@@ -185,6 +189,47 @@ pub fn run(tier: Tier, seed: u64) -> i32 {
         })
     });
     rep.add(b);
+    // a volume without free clusters except one or two placed around the hint: whatever the hint, a file can be
+    // written as long as the table has a free entry, and the cluster it gets is the one the search reaches first
+    if !rep.failed() {
+        let mut nf: Vec<LargeCfg> = Vec::new();
+        for hint in [Some(0), Some(-1), Some(-2), Some(-40), Some(1), None, Some(-30000)] {
+            for free in [vec![1u32], vec![0], vec![2], vec![41], vec![0, 1], vec![5000], vec![3, 39], vec![30001], vec![29999, 30000]] {
+                nf.push(LargeCfg { hint_rel: hint, tail_window: u32::MAX, tail_free: free, head_used: 1, alias_bad: false, root_at_end: 0 });
+            }
+        }
+        let small = GEOMS.len() - 1;
+        let b = run::run_indexed("only_free_clusters_placed_around_the_hint", nf.len() as u64, |i, blk| {
+            let vol = large_vol(small, nf[i as usize].clone());
+            let cs = vol.cluster_size();
+            let ops = vec![
+                Op::CreateFile { via: 0, path: "x.bin".into(), keep: 1 },
+                Op::Write { h: 0, len: 5, seed: 1 },
+                Op::CloseFile { h: 0 },
+                Op::Stats,
+                Op::CreateFile { via: 0, path: "y.bin".into(), keep: 1 },
+                Op::Write { h: 0, len: cs + 1, seed: 2 },
+                Op::CloseFile { h: 0 },
+                Op::Remove { via: 0, path: "x.bin".into() },
+                Op::CreateFile { via: 0, path: "z.bin".into(), keep: 1 },
+                Op::Write { h: 0, len: 7, seed: 3 },
+                Op::Seek { h: 0, whence: 0, off: 0 },
+                Op::Truncate { h: 0 },
+                Op::Write { h: 0, len: 9, seed: 4 },
+                Op::CloseFile { h: 0 },
+                Op::Remount { how: 0 },
+                Op::Stats,
+                Op::Remove { via: 0, path: "y.bin".into() },
+                Op::CreateDir { via: 0, path: "d".into(), keep: 0 },
+                Op::Stats,
+            ];
+            let case = Case { vol: vol.clone(), ops };
+            let out = hist::eval_case(hp_ref, &case);
+            blk.record(&out, || serde_json::json!({"vol": vol, "ops": "scripted (19 ops)"}));
+            out.violation.map(|m| run::Failure { message: m, case: serde_json::to_value(&case).unwrap(), kind: "history".into() })
+        });
+        rep.add(b);
+    }
     if !rep.failed() {
         let gc = hp.gen_cfg.clone();
         let lcs2 = lcs.clone();
